@@ -20,6 +20,10 @@ func init() { fw.Register(&c14{}) }
 
 func (*c14) ID() string    { return "C14" }
 func (*c14) Level() string { return "exploration" }
+
+// termination is not this property's claim (C04/C05 decide it): a case that exhausts the watchdog's
+// CPU allowance is a generated program that is too expensive, counted as inconclusive
+func (*c14) Config(tier string) fw.Config { return fw.Config{CrashInconclusive: true} }
 func (*c14) NumCases(tier string) int {
 	if tier == "thorough" {
 		return 250000
